@@ -16,30 +16,37 @@
  *   ERROR_INSUFFICIENT_MEMORY only if an allocation failed, nothing else but SUCCESS, and
  *   every position taken from the pool or the allocator is back in the pool at return.
  *
- * Route B. Bound: NITEMS items (each symbolic among ANY, LITERAL, NOT_LITERAL,
- * MASKED_LITERAL, MASKED_NOT_LITERAL, REPEAT_ANY_UNGREEDY with min <= max <= JMAX; the
- * last item is not a jump, as in every pattern the grammar accepts), buffer of DSIZE bytes.
- * Bytes, masks, values and jump bounds are fully symbolic.
+ * Route B. The STRUCTURE of the pattern is a compile-time constant (-DCFG=n, swept by the
+ * runner over every structure within the bound), everything else is symbolic:
+ *   CFG = dir + 4 * (fail + 5 * (item0 + 14 * (item1 + 14 * item2))),  dir bit0 backwards, bit1
+ *   exhaustive; fail 0 no allocation fails, k the k-th allocation fails;
+ *   item: 0 ANY | 1 LITERAL-or-NOT_LITERAL (symbolic which) | 2 MASKED_LITERAL-or-
+ *   MASKED_NOT_LITERAL (symbolic which) | 3..12 jump [min-max] with 0 <= min <= max <= 3 |
+ *   13 end of pattern.  The last item is not a jump, as in every pattern hex_grammar.y accepts.
+ * Buffer of DSIZE bytes, start position, bytes, values, masks, negation and the allocation
+ * failure pattern are symbolic. (A symbolic structure makes the instruction pointer and the
+ * position list symbolic; CBMC's symbolic execution then does not finish -- measured.)
  */
 #include "vharness.h"
 #include <string.h>
 #include <stdlib.h>
 
-#ifndef NITEMS
 #define NITEMS 3
+#ifndef CFG
+#define CFG 0
 #endif
 #ifndef DSIZE
 #define DSIZE 5
 #endif
-#ifndef JMAX
-#define JMAX 2
-#endif
+#define JMAX 3
 #define NPOS 8
 
 #include <yara/types.h>
 #include <yara/re.h>
 
-static RE_FAST_EXEC_POSITION pos_pool[NPOS];
+/* separate objects, not an array: pointers into an array of structs make every list
+ * operation a symbolic-index array update (measured: 100 s instead of 0.5 s) */
+static RE_FAST_EXEC_POSITION pp0, pp1, pp2, pp3, pp4, pp5, pp6, pp7;
 static int g_allocs, g_alloc_failed;
 static uint32_t in_failmask;
 int yr_isalnum(const uint8_t* s) { return 0; }
@@ -47,7 +54,11 @@ void* yr_malloc(size_t size)
 {
   int k = g_allocs++;
   if (k >= NPOS || ((in_failmask >> k) & 1)) { g_alloc_failed = 1; return NULL; }
-  return &pos_pool[k];
+  switch (k)
+  {
+  case 0: return &pp0; case 1: return &pp1; case 2: return &pp2; case 3: return &pp3;
+  case 4: return &pp4; case 5: return &pp5; case 6: return &pp6; default: return &pp7;
+  }
 }
 
 #include "/repo/libyara/re.c"
@@ -65,42 +76,78 @@ static int the_callback(const uint8_t* match, int match_length, int flags, void*
   return ERROR_SUCCESS;
 }
 
-enum { K_ANY, K_LIT, K_NOTLIT, K_MASKED, K_MASKEDNOT, K_JUMP, K_COUNT };
+enum { K_ANY, K_LIT, K_MASKED, K_JUMP0, K_END = 13 };
+#define FAILAT (((CFG) / 4) % 5)
+#define ITEM(i) ((i) == 0 ? ((CFG) / 20) % 14 : (i) == 1 ? ((CFG) / 280) % 14 : ((CFG) / 3920) % 14)
+#define IS_JUMP(it) ((it) >= K_JUMP0 && (it) < K_END)
+static const uint8_t jpair_min[10] = {0, 0, 0, 0, 1, 1, 1, 2, 2, 3};
+static const uint8_t jpair_max[10] = {0, 1, 2, 3, 1, 2, 3, 2, 3, 3};
 
-static uint8_t buf[DSIZE];
+/* One guard byte in front of the buffer, inside the same object: matching backwards forms (and
+ * compares, never dereferences) the pointer one before the buffer, which CBMC's pointer
+ * relation check would report on a bare array. The guard byte is a symbolic input that the
+ * denotation below does not depend on, so a read of it that influences the result is still a
+ * failed obligation; a read past the END of the buffer is an out-of-bounds access as usual. */
+static uint8_t store[DSIZE + 1];
+#define buf (store + 1)
 static uint8_t code[NITEMS * 5 + 1];
 static YR_SCAN_CONTEXT ctx;
+
+/* The (symbolic) choice between an opcode and its negated form is made by branching BEFORE the
+ * call, so that on every path of the symbolic execution the opcodes are constants. */
+static uint8_t g_kind[NITEMS], g_negated[NITEMS], g_opoff[NITEMS];
+static int g_nitems, g_start, g_flags, g_matches;
+static int run_from(int i)
+{
+  if (i >= g_nitems)
+    return yr_re_fast_exec(&ctx, code, buf + g_start, DSIZE - g_start, g_start, g_flags, the_callback, NULL, &g_matches);
+  if (g_kind[i] == 1 /* K_LIT */)
+  {
+    if (g_negated[i]) { code[g_opoff[i]] = RE_OPCODE_NOT_LITERAL; return run_from(i + 1); }
+    else { code[g_opoff[i]] = RE_OPCODE_LITERAL; return run_from(i + 1); }
+  }
+  if (g_kind[i] == 2 /* K_MASKED */)
+  {
+    if (g_negated[i]) { code[g_opoff[i]] = RE_OPCODE_MASKED_NOT_LITERAL; return run_from(i + 1); }
+    else { code[g_opoff[i]] = RE_OPCODE_MASKED_LITERAL; return run_from(i + 1); }
+  }
+  return run_from(i + 1);
+}
 
 void harness(void)
 {
   V_IN_ARR(uint8_t, data, DSIZE);
-  V_IN_ARR(uint8_t, kind, NITEMS);
+  V_IN_ARR(uint8_t, negated, NITEMS);
   V_IN_ARR(uint8_t, val, NITEMS);
   V_IN_ARR(uint8_t, mask, NITEMS);
-  V_IN_ARR(uint8_t, jmin, NITEMS);
-  V_IN_ARR(uint8_t, jmax, NITEMS);
-  V_IN(uint8_t, nitems);
   V_IN(uint8_t, start);
-  V_IN(uint8_t, backwards);
-  V_IN(uint8_t, exhaustive);
-  V_IN(uint32_t, failmask);
+  const uint8_t backwards = (CFG) & 1, exhaustive = ((CFG) >> 1) & 1;
+  const uint8_t kind[NITEMS] = {ITEM(0), ITEM(1), ITEM(2)};
+  const int nitems = kind[0] == K_END ? 0 : kind[1] == K_END ? 1 : kind[2] == K_END ? 2 : 3;
+  uint8_t jmin[NITEMS], jmax[NITEMS];
+  /* which allocation fails is part of the structure (a symbolic failure pattern does not finish) */
+  const uint32_t failmask = FAILAT == 0 ? 0 : 1u << (FAILAT - 1);
 
-  V_ASSUME(nitems >= 1 && nitems <= NITEMS && start <= DSIZE);
+  /* structures outside the stated family are rejected at compile time of the harness */
+  _Static_assert(ITEM(0) != K_END, "empty pattern");
+  _Static_assert(ITEM(1) != K_END || ITEM(2) == K_END, "items after the end marker");
+  _Static_assert(!IS_JUMP(ITEM(2)) && !(ITEM(2) == K_END && IS_JUMP(ITEM(1))) && !(ITEM(1) == K_END && IS_JUMP(ITEM(0))), "a pattern does not end with a jump");
+  V_ASSUME(start <= DSIZE);
+  V_IN(uint8_t, guard);
+  store[0] = guard;
   for (int i = 0; i < DSIZE; i++) buf[i] = data[i];
   int n = 0;
   for (int i = 0; i < NITEMS; i++)
   {
     if (i >= nitems) break;
-    V_ASSUME(kind[i] < K_COUNT);
-    V_ASSUME(kind[i] != K_JUMP || (i + 1 < nitems && jmin[i] <= jmax[i] && jmax[i] <= JMAX));
+    jmin[i] = jmax[i] = 0;
     switch (kind[i])
     {
     case K_ANY: code[n++] = RE_OPCODE_ANY; break;
-    case K_LIT: code[n++] = RE_OPCODE_LITERAL; code[n++] = val[i]; break;
-    case K_NOTLIT: code[n++] = RE_OPCODE_NOT_LITERAL; code[n++] = val[i]; break;
-    case K_MASKED: code[n++] = RE_OPCODE_MASKED_LITERAL; code[n++] = val[i]; code[n++] = mask[i]; break;
-    case K_MASKEDNOT: code[n++] = RE_OPCODE_MASKED_NOT_LITERAL; code[n++] = val[i]; code[n++] = mask[i]; break;
+    case K_LIT: g_opoff[i] = n; code[n++] = RE_OPCODE_LITERAL; code[n++] = val[i]; break;
+    case K_MASKED: g_opoff[i] = n; code[n++] = RE_OPCODE_MASKED_LITERAL; code[n++] = val[i]; code[n++] = mask[i]; break;
     default:
+      jmin[i] = jpair_min[kind[i] - K_JUMP0]; jmax[i] = jpair_max[kind[i] - K_JUMP0];
       code[n++] = RE_OPCODE_REPEAT_ANY_UNGREEDY;
       code[n++] = jmin[i]; code[n++] = 0; code[n++] = jmax[i]; code[n++] = 0;
       break;
@@ -116,7 +163,10 @@ void harness(void)
   int flags = (backwards ? RE_FLAGS_BACKWARDS : 0) | (exhaustive ? RE_FLAGS_EXHAUSTIVE : 0);
   int matches = -7;
 
-  int rc = yr_re_fast_exec(&ctx, code, buf + start, DSIZE - start, start, flags, the_callback, NULL, &matches);
+  for (int i = 0; i < NITEMS; i++) { g_kind[i] = kind[i]; g_negated[i] = negated[i]; }
+  g_nitems = nitems; g_start = start; g_flags = flags; g_matches = -7;
+  int rc = run_from(0);
+  matches = g_matches;
 
   /* ---- the denotation L as a bit set over lengths ---- */
   int avail = backwards ? start : DSIZE - start;
@@ -128,7 +178,7 @@ void harness(void)
     for (int l = 0; l <= DSIZE; l++)
     {
       if (!((S >> l) & 1)) continue;
-      if (kind[i] == K_JUMP)
+      if (IS_JUMP(kind[i]))
       {
         for (int j = 0; j <= JMAX; j++)
           /* a jump is followed by a byte item, so one more byte must be left */
@@ -141,14 +191,12 @@ void harness(void)
         switch (kind[i])
         {
         case K_ANY: ok = 1; break;
-        case K_LIT: ok = b == val[i]; break;
-        case K_NOTLIT: ok = b != val[i]; break;
+        case K_LIT: ok = (b == val[i]) != (negated[i] != 0); break;
 #if VNEG == 1
-        case K_MASKED: ok = (b & mask[i]) == (val[i] & mask[i]); break; /* wrong on purpose */
+        default: ok = ((b & mask[i]) == (val[i] & mask[i])) != (negated[i] != 0); break; /* wrong on purpose */
 #else
-        case K_MASKED: ok = (b & mask[i]) == val[i]; break;
+        default: ok = ((b & mask[i]) == val[i]) != (negated[i] != 0); break;
 #endif
-        default: ok = (b & mask[i]) != val[i]; break;
         }
         if (ok) T |= 1u << (l + 1);
       }
